@@ -32,6 +32,9 @@ CHECKS = {
  "C10": ("exploration", "burst parameter enumeration as workload; beat stream vs independent AMBA address equations; converters vs reference memory per burst-feature class",
          "AXIBurst2Beat: every legal (offset, size, type, len) tuple of a 32- and 64-bit bus (6372 quick, all offsets 0..63 thorough) under several ready patterns, each beat address compared at transfer-size granularity with lib/models/axi.py, first/last/id and the single request handshake checked. AXIUp/Down/Converter at ratios 2/4/8 between AXI master and memory BFMs, one burst feature class per history (aligned / incr / unaligned / narrow / wrap / fixed).",
          "trusted: simulator, lib/models/axi.py (AMBA A3.4.1 equations), AXI BFMs", "4 C10"),
+ "C12": ("exploration", "cycle-by-cycle comparison of the real CSR bank array with a register-file model built from the declaration",
+         "Random AutoCSR peripherals (storages +-atomic +-write_from_dev +-fields/pulse, statuses, raw CSRs, fixed locations, a CSR memory with sub-word staging and paging) collected by the real CSRBankArray at bus widths 8/32, big/little ordering and several pagings; random bus histories incl. unmapped and foreign-page addresses interleaved with device-side updates; dat_r, every storage, re/we strobes and field signals are predicted for every cycle; register placement compared with the documented rule.",
+         "trusted: simulator, the model in props/c12.py; device and bus writes to one register never collide in a cycle", "4 C12"),
 }
 
 def main():
